@@ -126,10 +126,33 @@ ROUND4 = {
  "C19": ("/tmp/out4-C19", ["C19"], "C19 draws invalid_disparity 'inf' / '-inf' as well", "save_config writes both infinities as 'inf'", "invalid_disparity -inf through the command line"),
  "C20": ("/tmp/out4-C20", ["C20"], "C20 step cases use suffixed step names (all steps, or the matching cost only) in four suffix styles", "filter margins read the step from pipeline_cfg['matching_cost'] literally", "suffixed matching_cost step + step != 1 (pandora2d) + a filter"),
 }
+ROUND5 = {
+ "C01": ("/tmp/out5-C01", ["C08", "C14"], "same mechanism as C08-1 (the two halves of the validation step merged into one helper: left checked and filled before the right is checked). C01's own monitors (trace, structure symmetry, histories) do not see it: the order inside one step is a matter for C08 (mirror) and C14 (filling), which report it",
+         "validation_run: check(left), fill(left), check(right), fill(right)", "validation with interpolated_disparity + real occlusions; only the right products change"),
+ "C02": ("/tmp/out5-C02", ["C02"], "", "cv_masked skips the mask section unless BOTH images carry a mask (De Morgan slip)", "exactly one image of the pair has a mask"),
+ "C03": ("/tmp/out5-C03", ["C03"], "", "the 'no computable cost' map is reduced over the integer-disparity planes only", "subpix 2/4 + pixel whose computable costs all sit at fractional disparities"),
+ "C04": ("/tmp/out5-C04", ["C04", "C14"], "C04 gained the clause 'a pixel carrying a filled bit is never left without any of bits 4/5/8/9 by a later validation step' (the ownership monitor allowed a step to clear its own kind of bit)", "both interpolation classes replace clear+set by one XOR", "validation repeated with filling; pixel filled by the first pass and flagged again by the second"),
+ "C05": ("/tmp/out5-C05", ["C05", "C01"], "C05's drawn pipelines use the four suffix styles (C01 reported it unchanged)", "the check loop strips the suffix with rsplit (text before the LAST dot)", "step name with two dots (filter.1.5)"),
+ "C06": ("/tmp/out5-C06", ["C06"], "", "the invalid test is hoisted into a uint8 map (bits 8 and 9 truncated)", "refinement after validation + occluded / mismatched pixels"),
+ "C07": ("/tmp/out5-C07", ["C07"], "", "the per-row 'invalid' buffer is allocated once and never cleared", "already-invalid pixel below a pixel the cross-check flags, in the same column"),
+ "C08": ("/tmp/out5-C08", ["C08", "C18"], "", "cbca masks its images through astype(copy=False): the caller's float32 images receive NaN", "cbca + subpix 2/4 + masked pixel + validation"),
+ "C09": ("/tmp/out5-C09", ["C09", "C12"], "C09's nested-interval pipelines now end with a confidence step in 60 % of the cases (C12 reported it unchanged)", "the ambiguity kernel normalises the cost volume in place", "ambiguity step + dissimilarity measure; the costs then depend on the global extrema, hence on the requested interval"),
+ "C10": ("/tmp/out5-C10", ["C10"], "two directed multi-block median_for_intervals cases added (the random draws already reported it)", "median_for_intervals filters its bands in place block after block", "median_for_intervals + more than one 100-pixel block"),
+ "C11": ("/tmp/out5-C11", ["C11"], "C11 gained the step-by-step use of ONE aggregation object over several calls, including after an in-place update of a dataset", "cross supports cached on the aggregation object under id(dataset)", "aggregation object reused after a dataset was updated in place (API use; pandora.run builds a new object per run)"),
+ "C12": ("/tmp/out5-C12", ["C12"], "C12 gained volumes of 101-130 rows or columns (four per shard)", "risk computed in blocks of 100 rows, each normalised with its own cost extrema", "risk + more than 100 rows"),
+ "C13": ("/tmp/out5-C13", ["C13", "C10"], "same mechanism as C10-3; C13 gained a directed wide scene with a bilateral filter and an invalid area larger than a chunk", "bilateral filter skips a chunk without valid centre and forgets to advance the column cursor", "bilateral + wide image + invalid area covering a 50x50 chunk of windows"),
+ "C14": ("/tmp/out5-C14", ["C14", "C08"], "same mechanism as C01-5 / C08-1; C14 now compares both final maps with the run of the same pipeline without the filling option", "validation_run: check(left), fill(left), check(right), fill(right)", "validation with interpolated_disparity + real occlusions; right map only"),
+ "C15": ("/tmp/out5-C15", ["C15"], "a third of the C15 cases run on a machine that has already checked and run another multiscale pipeline (other zoom, other marge)", "the multiscale object is created once per machine and kept", "same machine, two multiscale pipelines with different marge / scale_factor"),
+ "C16": ("/tmp/out5-C16", ["C16"], "", "get_window leaves the 'outside' test to rasterio (a zero-length window is accepted)", "ROI abutting the image with a gap of exactly 0 pixels"),
+ "C17": ("/tmp/out5-C17", ["C17"], "", "the set of mandatory attributes became a module constant updated in place", "a dataset lacking an attribute checked after any other dataset in the same process"),
+ "C18": ("/tmp/out5-C18", ["C18", "C01"], "C18 histories now include the pipeline cut before its disparity step and a multiscale variant (C01 reported it unchanged)", "the per-run reset of left/right_disparity moved to __init__", "second run on one machine of a pipeline with a confidence step that stops before the disparity step, or is multiscale"),
+ "C19": ("/tmp/out5-C19", ["C19", "C01"], "C19 renames the validation step (or all steps) with suffixes in half of the cases (C01 reported it unchanged)", "run_prepare sets right_disp_map unconditionally from the step literally named 'validation'", "validation step that only exists under a suffixed name"),
+ "C20": ("/tmp/out5-C20", ["C20"], "", "bilateral margin truncated after the multiplication by the step", "step > 1 (pandora2d) + 3*sigma_space not an integer"),
+}
 def main():
     table = json.load(open(sys.argv[1])) if len(sys.argv) > 1 else None
     items = [(pid, 1, v) for pid, v in ROUND1.items()] + [(pid, 2, v) for pid, v in ROUND2.items()] + [(pid, 3, v) for pid, v in ROUND3.items()]
-    items += [(pid, "3b", v) for pid, v in ROUND3B.items()] + [(pid, 4, v) for pid, v in ROUND4.items()]
+    items += [(pid, "3b", v) for pid, v in ROUND3B.items()] + [(pid, 4, v) for pid, v in ROUND4.items()] + [(pid, 5, v) for pid, v in ROUND5.items()]
     for pid, rnd, (src, caught, strengthened, what, needs) in items:
         name = f"{pid}-{rnd}"
         dst = os.path.join(V, "seeded", name)
@@ -142,7 +165,7 @@ def main():
         if os.path.exists(vf):
             ver = json.load(open(vf))
         meta = {
-            "property": pid, "name": name, "origin": "independent sub-agent given only the property text and a scratch worktree" + (" (second round: also shown the first-round patch, to avoid repeating it)" if rnd == 2 else "") + (" (third round: shown the two earlier patches, asked for another mechanism: step interactions, state between calls, copy/view, dtype, coordinates)" if str(rnd).startswith("3") else "") + (" (fourth round: shown the three earlier patches, asked for less-travelled paths: non-default parameters, domain extremes, two entry points, dtypes, coordinates, NaN/inf, a step present twice)" if rnd == 4 else ""),
+            "property": pid, "name": name, "origin": "independent sub-agent given only the property text and a scratch worktree" + (" (second round: also shown the first-round patch, to avoid repeating it)" if rnd == 2 else "") + (" (third round: shown the two earlier patches, asked for another mechanism: step interactions, state between calls, copy/view, dtype, coordinates)" if str(rnd).startswith("3") else "") + (" (fourth round: shown the three earlier patches, asked for less-travelled paths: non-default parameters, domain extremes, two entry points, dtypes, coordinates, NaN/inf, a step present twice)" if rnd == 4 else "") + (" (fifth round: shown all earlier patches, asked for the slip that comes with a well-meant refactoring or optimisation)" if rnd == 5 else ""),
             "change": what, "needs_to_manifest": needs,
             "confirmed_by_me": {
                 "patch_applies_to_repo_HEAD": ver.get("patch_applies_to_HEAD"),
